@@ -28,7 +28,15 @@ def main(argv=None):
         ensure_built()
         mod = importlib.import_module("drivers." + a.prop.lower())
         if a.replay:
-            rc = mod.replay(a.replay)
+            # a replay file records the tier and seed of the run that found the violation and the failing events with TLC's clause
+            # names; the checks are deterministic in (tier, seed, working tree), so replaying = re-executing that run
+            import json
+            with open(a.replay) as f:
+                rec = json.load(f)
+            print(f"replaying {rec.get('property')} tier={rec.get('tier')} seed={rec.get('seed')}: "
+                  f"{len(rec.get('violations', []))} recorded failing clause(s), first: "
+                  f"{(rec.get('violations') or [{}])[0].get('clause')}")
+            rc = mod.run(rec.get("tier", a.tier), int(rec.get("seed", seed)))
         else:
             rc = mod.run(a.tier, seed)
     except MachineryError as ex:
